@@ -161,10 +161,17 @@ CLAIMED['C19'] = dict(
 
 NOT_YET = {}
 
-NA = {
-    'C12': 'every clause is a statement about orthonormal bases computed by LAPACK QR/SVD on random sketches; LAPACK cannot be encoded and with '
-           'contract stubs nothing of the property remains but output shapes (DESIGN.md section 4)',
-}
+CLAIMED['C12'] = dict(
+    text='Sketch width 1 only (R = 1, oversample = 0), where both LAPACK calls have exact contract stubs (QR of an m x 1 quaternion column; SVD of the 4x4 '
+         'embedding of a 1x1 quaternion with an arbitrary unit first basis vector): for A up to 2x2 (full quaternion for vector shapes, real-axis 2x2 in quick, '
+         'complex/full in thorough), 0..1 power iterations of rand_qsvd and 2..3 passes of pass_eff_qsvd, every Gaussian draw symbolic: U and V are unit-norm, s >= 0, '
+         '||A - U s V^H||_F^2 = ||A||_F^2 - s^2 (so s = U^H A V and the error is at most ||A||_F), s <= ||A||_F (= sigma_1 for vector-shaped and rank-1 input), and '
+         'A = U s V^H whenever rank(A) <= 1, for every draw that does not annihilate the sketch.',
+    ref='3/C12',
+    note='Sketch widths >= 2 (LAPACK factorisations of blocks, not fixed by their contracts) are outside the solver claim and only exercised by the tolerance-based '
+         'real-library battery attached to the path witnesses; s_i <= sigma_i for general matrices is decided in the weaker form s <= ||A||_F. Floats as reals; shim; z3.')
+
+NA = {}
 
 
 def main():
